@@ -1,0 +1,93 @@
+//! Verification hooks, compiled only with `--cfg iroh_verif`: named pause points.
+//!
+//! A pause point is a call `verif_pause::point("name", tag).await` placed (under
+//! `cfg(iroh_verif)`) inside server code.  It returns immediately unless a test harness
+//! armed the name with [`arm`].  A task that reaches an armed point is listed by
+//! [`waiting`] and stays suspended until the harness calls [`release`] for its
+//! `(name, tag)` pair (or [`reset`]), which lets a harness force one interleaving of
+//! server tasks.  The tag tells concurrent arrivals at the same point apart (the relay
+//! passes the raw connection id).
+
+use std::sync::{Arc, Mutex};
+
+use tokio::sync::Semaphore;
+
+#[derive(Debug)]
+struct Waiter {
+    name: &'static str,
+    tag: u64,
+    gate: Arc<Semaphore>,
+}
+
+#[derive(Debug, Default)]
+struct State {
+    armed: Vec<&'static str>,
+    waiting: Vec<Waiter>,
+}
+
+static STATE: Mutex<State> = Mutex::new(State {
+    armed: Vec::new(),
+    waiting: Vec::new(),
+});
+
+fn state() -> std::sync::MutexGuard<'static, State> {
+    STATE.lock().unwrap_or_else(|e| e.into_inner())
+}
+
+/// A pause point: no-op unless `name` is armed, otherwise suspends until released.
+pub async fn point(name: &'static str, tag: u64) {
+    let gate = {
+        let mut st = state();
+        if !st.armed.contains(&name) {
+            return;
+        }
+        let gate = Arc::new(Semaphore::new(0));
+        st.waiting.push(Waiter {
+            name,
+            tag,
+            gate: gate.clone(),
+        });
+        gate
+    };
+    // Closing the semaphore (see `reset`) also ends the wait.
+    if let Ok(permit) = gate.acquire().await {
+        permit.forget();
+    }
+}
+
+/// Arms the pause points called `name`: every later arrival suspends.
+pub fn arm(name: &'static str) {
+    let mut st = state();
+    if !st.armed.contains(&name) {
+        st.armed.push(name);
+    }
+}
+
+/// The `(name, tag)` pairs of all tasks currently suspended at a pause point, in arrival order.
+pub fn waiting() -> Vec<(&'static str, u64)> {
+    state().waiting.iter().map(|w| (w.name, w.tag)).collect()
+}
+
+/// Resumes the task suspended at `(name, tag)`. Returns whether there was one.
+pub fn release(name: &str, tag: u64) -> bool {
+    let mut st = state();
+    let Some(i) = st
+        .waiting
+        .iter()
+        .position(|w| w.name == name && w.tag == tag)
+    else {
+        return false;
+    };
+    let w = st.waiting.remove(i);
+    w.gate.add_permits(1);
+    true
+}
+
+/// Disarms every pause point and resumes every suspended task.
+pub fn reset() {
+    let mut st = state();
+    st.armed.clear();
+    for w in st.waiting.drain(..) {
+        w.gate.close();
+    }
+}
